@@ -26,6 +26,9 @@ pub enum Case {
     Tinfl { input: AnyInput, flags: u32, out_len: u32, start: u32, mode: u8, end_align: bool },
     Tdefl { data: Recipe, level: i8, zlib: bool, strategy: u8, mode: u8, chunks: Vec<u32>, out_len: u32, end_align: bool },
     Params { level: i32, method: i32, window: i32, mem_level: i32, strategy: i32, flush: i32 },
+    /// tinfl_decompress_mem_to_heap on raw/zlib streams whose plaintext size sits just past a growth
+    /// step (128 << k) of its internal buffer
+    HeapGrow { k: u8, d: u16, class: u8, level: u8, zlib: bool, seed: u64 },
     Misuse { kind: u8 },
 }
 
@@ -79,7 +82,8 @@ impl Prop for P {
         let tinfl = (input, proptest::bits::u32::masked(1 | 2 | 4 | 8 | 64), prop_oneof![2 => Just(0u32), 4 => 0u32..=64, 4 => 0u32..=70_000], 0u32..=40, 0u8..4, any::<bool>()).prop_map(|(input, flags, out_len, start, mode, end_align)| Case::Tinfl { input, flags, out_len, start, mode, end_align });
         let tdefl = (recipe(30_000, 3), -1i8..=10, any::<bool>(), 0u8..=4, 0u8..4, proptest::collection::vec(prop_oneof![0u32..=3, 1u32..=3000], 0..6), prop_oneof![0u32..=64, 0u32..=50_000], any::<bool>()).prop_map(|(data, level, zlib, strategy, mode, chunks, out_len, end_align)| Case::Tdefl { data, level, zlib, strategy, mode, chunks, out_len, end_align });
         let par = (-3i32..=13, 0i32..=9, prop_oneof![Just(15i32), Just(-15i32), -16i32..=16], 0i32..=10, -1i32..=6, -1i32..=7).prop_map(|(level, method, window, mem_level, strategy, flush)| Case::Params { level, method, window, mem_level, strategy, flush });
-        prop_oneof![4 => defl, 4 => infl, 2 => one, 2 => unc, 3 => tinfl, 3 => tdefl, 2 => par].boxed()
+        let hg = (0u8..=8, 0u16..=300, 0u8..4, 0u8..=10, any::<bool>(), any::<u64>()).prop_map(|(k, d, class, level, zlib, seed)| Case::HeapGrow { k, d, class, level, zlib, seed });
+        prop_oneof![4 => defl, 4 => infl, 2 => one, 2 => unc, 3 => tinfl, 3 => tdefl, 2 => par, 3 => hg].boxed()
     }
     fn check(case: &Case, cx: &mut Ctx) -> Check {
         match case {
@@ -91,6 +95,37 @@ impl Prop for P {
             Case::Tdefl { data, level, zlib, strategy, mode, chunks, out_len, end_align } => c_tdefl(data, *level as i32, *zlib, *strategy as i32, *mode, chunks, *out_len as usize, *end_align, cx),
             Case::Params { level, method, window, mem_level, strategy, flush } => c_params(*level, *method, *window, *mem_level, *strategy, *flush, cx),
             Case::Misuse { kind } => c_misuse(*kind, cx),
+            Case::HeapGrow { k, d, class, level, zlib, seed } => {
+                let n = (128usize << *k) + *d as usize - (*d as usize % 7 == 0) as usize * 3;
+                let mut st = *seed;
+                let x: Vec<u8> = match class % 4 {
+                    0 => vec![(*seed & 0xff) as u8; n],
+                    1 => (0..n).map(|i| b"abcdefghij"[i % (2 + (*seed as usize % 9))]).collect(),
+                    2 => {
+                        let mut v = Vec::new();
+                        crate::gen::data::Seg::Text { n: n as u32, seed: *seed }.append(&mut v);
+                        v
+                    }
+                    _ => (0..n).map(|_| crate::oracle::sums::splitmix64(&mut st) as u8).collect(),
+                };
+                let comp = if *zlib { miniz_oxide::deflate::compress_to_vec_zlib(&x, *level) } else { miniz_oxide::deflate::compress_to_vec(&x, *level) };
+                let gin = GuardBuf::from_slice(&comp, Align::End);
+                let mut len = 1usize;
+                let flags = if *zlib { TINFL_FLAG_PARSE_ZLIB_HEADER } else { 0 };
+                // SAFETY: guard buffer for the source; result freed with the shim's free function
+                let p = guard(|| unsafe { tinfl_decompress_mem_to_heap(gin.ptr() as *const c_void, comp.len(), &mut len, flags as c_int) }).map_err(|pm| Violation::new(panic_sig("c17:tinfl_decompress_mem_to_heap", &pm), format!("unwound: {pm}")))?;
+                vensure!(!p.is_null() && len == x.len(), "c17:mem_to_heap-differs", "tinfl_decompress_mem_to_heap on a valid {} stream of {} plaintext bytes ({} compressed): null={} len {len}; decompress_to_vec gives the plaintext", if *zlib { "zlib" } else { "raw" }, x.len(), comp.len(), p.is_null());
+                // SAFETY: len bytes allocated by the shim
+                let got = unsafe { std::slice::from_raw_parts(p as *const u8, len) };
+                let same = got == &x[..];
+                // SAFETY: allocated by the shim's allocator
+                unsafe { miniz_def_free_func(std::ptr::null_mut(), p) };
+                vensure!(same, "c17:mem_to_heap-bytes", "bytes differ");
+                cx.evals(1);
+                cx.class("fn:tinfl_decompress_mem_to_heap(growth-step sizes)");
+                cx.nontrivial();
+                Ok(())
+            }
         }
     }
     fn fixed_on_all_profiles() -> bool {
@@ -106,6 +141,7 @@ impl Prop for P {
             Case::OneShot { .. } => Some("c17:crash:mz_compress".into()),
             Case::Uncompress { .. } => Some("c17:crash:mz_uncompress".into()),
             Case::Params { .. } => Some("c17:crash:params".into()),
+            Case::HeapGrow { .. } => Some("c17:crash:tinfl-mem_to_heap".into()),
         }
     }
 }
